@@ -79,7 +79,15 @@ int main(int argc, char** argv) {
       int eq = -1, ev = -1;
       {
         Table u; std::vector<unsigned char> copy(bytes);
-        try { u.read_fits_mem(copy.data(), copy.size()); eq = ((t == u) == (t == t)) && ((t != u) == (t != t)) ? 1 : 0; ev = eval_same(t, u, rng, 12); if (ev > 1) evalpts += ev - 1; }
+        try {
+          u.read_fits_mem(copy.data(), copy.size());
+          // evaluate only what has the shape of the original (a mangled table is reported through the field comparison)
+          Spec a = spec_of(t), b = spec_of(u);
+          bool shape = a.order == b.order && a.naxes == b.naxes && a.strides == b.strides && a.coef.size() == b.coef.size() && a.knots.size() == b.knots.size();
+          for (size_t i = 0; shape && i < a.knots.size(); i++) shape = a.knots[i].size() == b.knots[i].size();
+          if (shape) { eq = ((t == u) == (t == t)) && ((t != u) == (t != t)) ? 1 : 0; ev = eval_same(t, u, rng, 12); if (ev > 1) evalpts += ev - 1; }
+          else { eq = -2; ev = -2; }
+        }
         catch (std::exception&) { u.ndim = 0; }
       }
       unlink(path.c_str());
